@@ -361,7 +361,7 @@ pub fn check_one(ty: &str, pos: &[[X; 4]; 3], attr: &[[X; 3]; 3], outs: &[OutTri
     for (k, t) in ctris.iter().enumerate() {
         let ar = orient(t[0], t[1], t[2]);
         area_sum += ar.max(0.0) / 2.0;
-        ensure!(ar >= -1e-7 / cond.min(1.0), "winding-flipped", "output triangle {k} has signed chart area {:.3e}: winding reversed relative to the input", ar / 2.0);
+        ensure!(ar >= -4.0 * tol_l, "winding-flipped", "output triangle {k} has signed chart area {:.3e}: winding reversed relative to the input", ar / 2.0);
     }
     // (6) cheap global cross-check: the outputs cannot cover more than the input
     ensure!(area_sum <= 0.5 + 1e-4 / cond.min(1.0), "outputs-exceed-input", "output chart areas sum to {area_sum:.6} > 0.5");
